@@ -50,6 +50,13 @@ pub fn gen(tier: &str, seed: u64, emit: &mut dyn FnMut(String)) {
     }
     let mut pre = vec![];
     rec(&mut pre, maxlen, &classes, &mut rng, emit);
+    // long loops: 2..4 descriptors with long payloads, total length beyond 255 bytes (lengths relative to what remains modulo 256)
+    for _ in 0..(if big { 20000 } else { 1500 }) {
+        let mut b = vec![];
+        for _ in 0..rng.range(2, 4) { let n = *rng.pick(&[100usize, 128, 200, 250, 254, 255, 3, 0]); let p = rng.bytes(n); let t = *rng.pick(&[5u8, 10, 14, 40, 0x80, 0xff]); b.extend(descriptor(t, &p)); }
+        match rng.below(5) { 0 => { let n = rng.range(1, 3) as usize; let t = rng.bytes(n); b.extend(t); } 1 => { let k = rng.below(b.len() as u64 + 1) as usize; b.truncate(k); } _ => {} }
+        emit(format!("DSC {}", hex(&b)));
+    }
     // random loops
     for _ in 0..(if big { 200000 } else { 20000 }) {
         let mut b = vec![];
